@@ -282,7 +282,12 @@ def check_transitions(eng, res, rule="R-TRANSITIONS"):
     p = kwarg(c, "p")
     pt = flow.expand_ssa(p, at) if p is not None else None
     desc = strip_attr(pt.left, "transitions") if isinstance(pt, ast.BinOp) else None
-    ok = desc is not None and len(conds) == 1 and conds[0][1] and gtxt[0] == f"{src(desc)}.transitions is not None"
+    from ..lits import lits, lits_text
+
+    GL = set()
+    for t, pol in conds:
+        GL |= lits(flow.expand_ssa(t, cfg.node_of(t)), pol)
+    ok = desc is not None and frozenset(GL) == lits_text(f"{src(desc)}.transitions is not None")
     res.ob(rule, step, "guard", "the transition pick is taken exactly when the picked open descriptor carries a list", c, ok, f"guard {gtxt}; p from {src(desc) if desc is not None else None}")
     # same descriptor is the one reacted
     att = calls(step, "attach_other")
@@ -306,18 +311,23 @@ def check_transitions(eng, res, rule="R-TRANSITIONS"):
     if isinstance(st, ast.Assign) and isinstance(st.targets[0], ast.Name):
         idx_name = st.targets[0].id
     dec = None
+    dec_body, dec_else = [], []
     for n in own_nodes(step.node):
-        if isinstance(n, ast.If) and idx_name and src(n.test) == f"{idx_name} < len(self.repeat_bonds)":
-            dec = n
+        if isinstance(n, ast.If) and idx_name:
+            want = lits_text(f"{idx_name} < len(self.repeat_bonds)")
+            if lits(n.test, True) == want:
+                dec, dec_body, dec_else = n, n.body, n.orelse
+            elif lits(n.test, False) == want:
+                dec, dec_body, dec_else = n, n.orelse, n.body
     if dec is None:
         res.ob(rule, step, "decode", "position < number of repeat descriptors ⇒ repeat pool, else minus that number ⇒ end pool", step.node, False,
                "no test `position < len(self.repeat_bonds)`")
         return
-    tb = " ".join(src(s) for s in dec.body)
-    eb = " ".join(src(s) for s in dec.orelse)
+    tb = " ".join(src(s) for s in dec_body)
+    eb = " ".join(src(s) for s in dec_else)
     ok_t = "self.repeat_bonds[" + idx_name + "]" in tb and "self.repeat_tokens[self.repeat_bond_token_idx[" + idx_name + "]]" in tb and "end_" not in tb
     res.ob(rule, step, "decode-repeat", "positions below the number of repeat descriptors select that repeat descriptor and its token", dec, ok_t, tb[:120])
-    first = dec.orelse[0] if dec.orelse else None
+    first = dec_else[0] if dec_else else None
     ok_e = (
         isinstance(first, ast.AugAssign) and isinstance(first.op, ast.Sub) and src(first.target) == idx_name and src(first.value) == "len(self.repeat_bonds)"
         and "self.end_bonds[" + idx_name + "]" in eb and "self.end_tokens[self.end_bond_token_idx[" + idx_name + "]]" in eb and "repeat_tokens" not in eb
@@ -327,6 +337,7 @@ def check_transitions(eng, res, rule="R-TRANSITIONS"):
 
 def check_terminal_transfer(eng, res, rule="R-TERMINAL-TRANSFER"):
     gen = eng.prog.func("stochastic.Stochastic.generate")
+    from ..lits import lits, lits_text
     from ..util import with_nested
 
     found = {}
@@ -354,8 +365,9 @@ def check_terminal_transfer(eng, res, rule="R-TERMINAL-TRANSFER"):
                 continue
             if fl.cfg.branch_raises(gn, "F" if label == "T" else "T"):
                 continue  # the complement of a validation that raises is context, not a condition
-            g.append((src(fl.expand_shallow(st.test, gn)), label == "T"))
-        extra = [x for x in g if x not in (("prefix is None", False), ("prefix is not None", True), ("prefix", True))]
+            g += [l for l in lits(fl.expand_shallow(st.test, gn), label == "T")]
+        allowed = lits_text("prefix is not None") | lits_text("prefix")
+        extra = [x for x in g if x not in allowed]
         res.ob(rule, f, f"transfer:{a}:unconditional", f"the {a} is transferred at every prefix start (a scalar terminal must also reset a list left over from the previous element)",
                n, not extra, f"transfer happens only under {extra}")
     if len(found) == 2:
